@@ -61,6 +61,25 @@ theorem tproxy_v6 (le : Bool) (port : Nat) (flow : Bytes) (gs : List Nat) (scope
         C05.TPROXY_IPV6_ORIGDSTADDR, C05.TPROXY_V6_START, C05.TPROXY_V6_LENGTH]
       simp [rd16, C05.AF_INET6, C05.AF_INET, hh]
 
+/-! ### `onaccept_udp` over a sequence of datagrams -/
+
+theorem dataPayloads_append (a b : List UdpEv) : dataPayloads (a ++ b) = dataPayloads a ++ dataPayloads b := by
+  induction a with
+  | nil => rfl
+  | cons e r ih => cases e <;> simp [dataPayloads, ih]
+
+theorem onacceptUdp_payloads (tbl : UdpTable) (fam src : Nat) (ip : Text) (port : Nat) (data : Bytes)
+    (fresh : Nat) (hasc : isAscii ip = true) (hf : fresh ≠ 0) :
+    dataPayloads (onacceptUdp tbl fam src ip (Int.ofNat port) data (some fresh)).2 =
+      [encodeUdp ip (Int.ofNat port) data] := by
+  unfold onacceptUdp
+  cases tbl.find src with
+  | some c => simp [hasc, dataPayloads]
+  | none =>
+    cases fresh with
+    | zero => exact absurd rfl hf
+    | succ n => simp [hasc, dataPayloads]
+
 /-! ### pf: text of the dialogue -/
 
 theorem isPrefix_append (p r : Text) : isPrefix p (p ++ r) = true := by
